@@ -3,7 +3,7 @@
 Space : (A) every document *shape* with <= N nodes (N=3 quick / 5 thorough) built by appending a
         node to the root or to an open namespace; node kinds = component, system, foreign,
         interface (with nested enum+subint+unknown type), enum, subint, extern, import, file-name,
-        unknown class, non-dict junk, and namespaces named [A], [B], [A,B] (re-opening allowed);
+        unknown class, non-dict junk, and namespaces named [A], [B], [A,B], [AB] (re-opening allowed);
         two naming sweeps: every declaration called X / every declaration with its own name.
         (B) payload space per kind: ports, events/formals, nested types, instances/bindings,
         ranges, fields, data values - exhaustive to the stated small bounds, at root and in ns [A,B].
@@ -21,7 +21,7 @@ PID = 'C05'
 
 LEAF_KINDS = ['component', 'system', 'foreign', 'interface', 'enum', 'subint', 'extern', 'import',
               'filename', 'unknown', 'junk']
-NS_NAMES = [['A'], ['B'], ['A', 'B']]
+NS_NAMES = [['A'], ['B'], ['A', 'B'], ['AB']]    # 'AB': same text as A+B without a separator
 
 
 def leaf_node(kind, name):
@@ -221,7 +221,7 @@ def explore(ctx):
            [('payload', i, 8, 0) for i in range(8)]
     for part in pmap(work, jobs):
         ctx.merge(part)
-    ctx.rule = (f'every document shape with <= {max_nodes} nodes (11 leaf kinds, namespaces [A],[B],[A,B], '
+    ctx.rule = (f'every document shape with <= {max_nodes} nodes (11 leaf kinds, namespaces [A],[B],[A,B],[AB], '
                 'arbitrary nesting and re-opening) x 2 naming sweeps, plus the payload space per kind at root and '
                 'inside namespace A.B; each shape generated exactly once; non-trivial = at least one declaration '
                 'expected; transitions = node-append construction steps')
